@@ -59,6 +59,16 @@ class PinSignature(wiring.Signature):
             "oe": Out(unsigned(1)),
         })
 
+    def __eq__(self, other):
+        """Compare signatures.
+
+        A GPIO pin signature has no parameters; any two of them are equal.
+        """
+        return isinstance(other, PinSignature)
+
+    def __repr__(self):
+        return "gpio.PinSignature()"
+
 
 class Peripheral(wiring.Component):
     class Mode(csr.Register, access="rw"):
